@@ -50,6 +50,11 @@ claim("C12", "model_checking",
       "TLC evaluates C12_Fixed on every observed end-of-trial state and the AfterCall semantics (atoms in cons never receive a new position token) on every move call of Canonical, HamiltonianCanonical, Isobaric and GrandCanonical traces.",
       ENGINE_NOTE + " FixCom/FixRot/force-bias clauses: see evidence (numeric predicates).", "5 C12")
 
+claim("C19", "model_checking",
+      "TLC exhaustive over index sequences and graphs (AtomsOps.tla) + replay of every case on real ase.Atoms",
+      "AtomsOps.tla specifies Delete/Reinsert on sequences and the admitted-component partition of a graph; TLC checks C19_Inverse / C19_DeleteRemoves / C19_Partition for every index sequence (all subsets, all orders) and every graph up to the bound and exports the expected results; each case is executed with del atoms[I] + reinsert_atoms on atoms carrying seven per-atom arrays of different dtypes (bytes and dtype compared) and with search_molecules on a geometric realisation of the graph (per-pair cutoff dict), default arrays cycling through None / constant / distinct negatives; random larger cases use an independent union-find oracle.",
+      "Trusted: TLC, ASE's neighbour list for realising a graph geometrically, the ndjson export. Bound: <= 4 atoms (quick) / 5 (thorough) exhaustive, random cases up to 12 atoms.", "5 C19")
+
 NOT_YET = "check not built yet in this round (planned in DESIGN.md section 5); will be claimed once its spec and conformance harness exist"
 
 
